@@ -113,7 +113,7 @@ class C19(Check):
         "peer (raw client / raw server)": "stub",
     }
     shrink_lists = ["msgs", "segs", "reads"]
-    quick_runs = 20000
+    quick_runs = 50000
     thorough_runs = 2000000
     chunk = 250
 
